@@ -6,6 +6,11 @@ functions and globals of one fixed test library, FILE users, declarations includ
 second FFI) and ALL cdefs made of <= k distinct items in every order.  No compiler except the
 test library.  For every cdef accepted in-line: emit_python_code(), import, and compare with
 the in-line FFI everything the statement lists.
+
+Audit round (.cache/audit/C11.md): 30 more items (unnamed '$N' aggregates, function-TYPE typedefs and more
+function shapes, more kinds of globals, degenerate aggregates, cdef(override=True), a second included FFI),
+"wide" cdefs whose tables have more than 128 / 256 / 65 536 entries, the same selections given with one
+cdef() call per item, and the set of names both libs expose (dir()).
 """
 import contextlib
 import ctypes
@@ -24,28 +29,52 @@ META = dict(
     technique="exhaustive enumeration of cdefs (all ordered selections of <= k declarations from an alphabet) with a "
               "differential oracle: in-line FFI vs the imported emit_python_code() module",
     text="Every cdef of <= 2 distinct items (in both orders) over a 65-item declaration alphabet (each item preceded by the items it depends on), and in the thorough "
-         "tier every cdef of <= 3 items over its 31-item core, is given to an in-line FFI and to emit_python_code(); "
+         "tier every cdef of <= 3 items over its 36-item core, is given to an in-line FFI and to emit_python_code(); "
          "the imported module must agree on every typedef/struct/union/enum/function-pointer type (same object when no "
          "struct/union/enum is involved; otherwise kind, name, size, alignment, every field with offset, bit position "
          "and width, enum base type and enumerators), on every integer constant, on list_types(), and after dlopen() of "
          "one fixed test library on the type and address of every function and the type, value and address of every "
-         "global (addresses also checked against ctypes).",
+         "global (addresses also checked against ctypes), and every name either lib lists in dir() must be an attribute "
+         "of both.  Added families: 30 more items (struct/union/enum with neither tag nor typedef name reached through a "
+         "field, a pointer typedef, a two-declarator typedef, a parameter, a global; typedef of a function TYPE and "
+         "functions declared through it, array / typedef'd-array parameters, a function returning a function pointer, 7 "
+         "arguments, _Bool/wchar_t/long double/float _Complex signatures; _Bool/float/long double/wchar_t/union/"
+         "2-D array/array-of-struct/pointer-to-struct globals and const-qualified globals; empty struct/union, enum "
+         "without enumerators, _Bool/char/64-bit-wide bitfields, var-sized last member, flexible array of an unnamed "
+         "struct; cdef(override=True) of a typedef, an anonymous-struct typedef, an opaque struct, a function, a "
+         "global, a const global; a second included FFI with an opaque struct, unnamed structs behind typedefs and "
+         "an includer that completes / re-declares included names), each alone and paired in both orders with every "
+         "core item (thorough: with every item); the 1- and 2-selections of the core (thorough: of all 95 items) "
+         "given with one cdef() call per item instead of merged calls; and 'wide' cdefs with N typedef'd arrays, N "
+         "enums, N three-field structs (one a bitfield), one struct of N fields and up to 300 functions and globals "
+         "for N = 127, 128, 129, 255, 256, 257 (thorough: also 34000 typedef'd arrays -- 68000 type-table slots -- and a struct of 34000 fields), so "
+         "that every index and count of the generated tables crosses 128, 256 (65 536) and the sorted tables are "
+         "searched over more than one bisection step.",
     note="the in-line FFI is the reference (the statement is relative to it); cdefs rejected in-line, probes on which "
          "the in-line FFI itself raises, and cdefs emit_python_code() explicitly refuses (OverflowError / "
-         "NotImplementedError / VerificationError / TypeError about opaque fields) are excluded and counted")
+         "NotImplementedError / VerificationError / TypeError about opaque fields) are excluded and counted; so is "
+         "the NotImplementedError with which the generated module refuses, at first use, a struct that is opaque "
+         "in the included FFI and completed by the including one; cdef() calls interleaved with typeof() are "
+         "histories (C34), not cdefs; expected duration on the idle machine: quick about 40 s, thorough several minutes")
 
 
 class Item(object):
     def __init__(self, key, text, types=(), consts=(), funcs=(), globs=(), opts=None, core=False,
-                 uses_file=False, tagged=None, beyond64=(), cls=(), arrays=(), needs=(), enum_typed=()):
+                 uses_file=False, tagged=None, beyond64=(), cls=(), arrays=(), needs=(), enum_typed=(),
+                 ext=False, base=0, segs=None, lazy=None):
         self.key = key
-        self.text = text
+        self._text = text
+        self._lazy = lazy               # callable -> (text, types, consts, funcs, globs): the "wide" generated cdefs
+        self.via_fields = None          # (struct, n): typedefs wa<i> whose in-line type is taken from field m<i> of struct
         self.types = tuple(types)
         self.consts = tuple(consts)
         self.funcs = tuple(funcs)
         self.globs = tuple(globs)
-        self.opts = opts                # None | "packed" | "pack4" | "include"
+        self.opts = opts                # None | "packed" | "pack4" | "include" | "multi" (several cdef() calls: segs)
         self.core = core
+        self.ext = ext                  # added in the audit round: see enumerate_space() for the products it is in
+        self.base = base                # opts == "include": which of BASES is included
+        self.segs = segs                # opts == "multi": [(text, None | "override"), ...], one cdef() call each
         self.uses_file = uses_file
         self.tagged = tagged or {}      # {typedef name: tagged type it directly names}
         self.beyond64 = tuple(beyond64)
@@ -53,6 +82,24 @@ class Item(object):
         self.arrays = tuple(arrays)     # globals declared with an array type
         self.needs = tuple(needs)       # items that must be declared before this one (inserted automatically)
         self.enum_typed = tuple(enum_typed)   # globals whose declared type is an enum
+
+    def _force(self):
+        if self._lazy is not None:
+            self._text, self.types, self.consts, self.funcs, self.globs = self._lazy()
+            self._lazy = None
+
+    @property
+    def text(self):
+        self._force()
+        return self._text
+
+    def segments(self):
+        """[(text, options)]: the cdef() calls this item consists of (include items have none)."""
+        if self.opts == "include":
+            return []
+        if self.opts == "multi":
+            return list(self.segs)
+        return [(self.text, self.opts)]
 
 
 def _items():
@@ -164,11 +211,149 @@ def _items():
           opts="include", core=True, cls=["include"]),
         I("inc_user", "struct IU { inc_t v; struct incS *p; enum incE e; inc_u8 b; };", ["struct IU"], core=True,
           needs=["inc"], cls=["include", "struct"]),
+    ] + _ext_items()
+
+
+def _ext_items():
+    """Items added in the audit round (.cache/audit/C11.md, gaps 2-7).  They are 'ext': see enumerate_space()."""
+    def I(*a, **k):
+        k["ext"] = True
+        return Item(*a, **k)
+    return [
+        # ---- gap 2: struct/union/enum with neither tag nor typedef name ('$N'), reached only through a use ----
+        I("s_unf", "struct SX { struct { int a; char b; } in; int t; };", ["struct SX", "struct SX *"], core=True,
+          cls=["struct", "unnamed_aggregate"]),
+        I("s_unp", "struct SY { struct { int a; } *p; union { int u; float f; } arr[2]; enum { SY_A = 4, SY_B } e; };",
+          ["struct SY"], consts=["SY_A", "SY_B"], cls=["struct", "union", "enum", "unnamed_aggregate"]),
+        I("td_np", "typedef struct { int x; } *td_np; typedef union { int u; char c; } *td_up; "
+                   "typedef enum { Q0, Q1 = 7 } *td_ep;", ["td_np", "td_up", "td_ep", "td_np *"], consts=["Q0", "Q1"],
+          core=True, cls=["typedef", "unnamed_aggregate", "named_pointer"]),
+        I("td_two", "typedef struct { int x; char y; } td_an, *td_anp;", ["td_an", "td_anp", "td_an *"],
+          cls=["typedef", "anonymous", "named_pointer"]),
+        I("f_un", "void f_un(struct { int a; } *);", funcs=["f_un"], cls=["function", "unnamed_aggregate"]),
+        I("g_un", "extern struct { int a; int b; } g_un;", globs=["g_un"], cls=["global", "unnamed_aggregate"]),
+        # ---- gap 3: typedef of a function TYPE, functions declared through it, more function shapes --------------
+        I("td_fntype", "typedef int fn_t(int); fn_t f_viafn; struct F { fn_t *cb; }; typedef fn_t *pfn_t;",
+          ["fn_t *", "struct F", "pfn_t", "pfn_t[2]"], funcs=["f_viafn"], core=True,
+          cls=["typedef", "function_typedef", "function", "fnptr"]),
+        I("f_arrparam", "int f_arrparam(struct S0 a[2]);", funcs=["f_arrparam"], needs=["s_plain"],
+          cls=["function", "array_parameter"]),
+        I("f_retfp", "int (*f_retfp(int))(int);", funcs=["f_retfp"], cls=["function", "fnptr", "returns_fnptr"]),
+        I("f_seven", "int f_seven(int, int, int, int, int, int, int);", funcs=["f_seven"], cls=["function"]),
+        I("f_tdarr", "int f_tdarr(td_arr5);", funcs=["f_tdarr"], needs=["td_arr"], cls=["function", "array_parameter"]),
+        I("f_cplx", "float _Complex f_cplx(float _Complex);", funcs=["f_cplx"], cls=["function", "complex"]),
+        I("f_prims2", "_Bool f_bool(_Bool); wchar_t f_wc(wchar_t); long double f_ld(long double);",
+          funcs=["f_bool", "f_wc", "f_ld"], cls=["function", "bool_wchar_longdouble"]),
+        # ---- gap 4: more kinds of global variable ------------------------------------------------------------------
+        I("g_more", "extern _Bool g_b; extern float g_f; extern long double g_ld; extern wchar_t g_w; "
+                    "extern int g_m[2][3];", globs=["g_b", "g_f", "g_ld", "g_w", "g_m"], arrays=["g_m"],
+          cls=["global", "bool_wchar_longdouble", "array"]),
+        I("g_aggr", "extern union U0 g_u; extern struct S0 g_as[2]; extern struct S0 *g_ps;",
+          globs=["g_u", "g_as", "g_ps"], arrays=["g_as"], needs=["u_plain", "s_plain"],
+          cls=["global", "union", "struct", "array"]),
+        I("g_constq", "extern const double g_cd; extern const char *const g_ccs; extern const struct S0 g_cs0;",
+          consts=["g_cd", "g_ccs", "g_cs0"], needs=["s_plain"], cls=["constant_without_value"]),
+        # ---- gap 5: degenerate aggregates and enums ------------------------------------------------------------------
+        I("s_empty", "struct Empty {}; union EmptyU {}; struct HasEmpty { struct Empty e; int z; };",
+          ["struct Empty", "union EmptyU", "struct HasEmpty", "struct Empty *"], core=True,
+          cls=["struct", "union", "empty_aggregate"]),
+        I("e_opaque", "enum OE; typedef enum OE oe_t;", ["oe_t", "enum OE"], tagged={"oe_t": "enum OE"},
+          cls=["enum", "typedef", "enum_without_enumerators"]),
+        I("s_bits2", "struct SB2 { _Bool a:1; char c:3; long d:40; unsigned long long e:64; signed char f:8; };",
+          ["struct SB2"], cls=["struct", "bitfield"]),
+        I("s_varlast", "struct V1 { int n; char t[]; }; struct V2 { int k; struct V1 v; };", ["struct V1", "struct V2"],
+          cls=["struct", "flexible", "nested"]),
+        I("s_flexun", "struct FU { int n; struct { int a; } items[]; };", ["struct FU"],
+          cls=["struct", "flexible", "unnamed_aggregate"]),
+        # ---- gap 6: cdef(..., override=True) ------------------------------------------------------------------------------
+        I("ov_td", None, ["T1", "struct O", "T1 *"], opts="multi", core=True,
+          segs=[("typedef int T1; struct O { T1 a; char b; };", None), ("typedef long T1;", "override")],
+          cls=["override", "typedef", "struct"]),
+        # ('#define K 1' then '#define K 2', 'static const' twice, a second 'enum E {...}' or 'struct S {...}' are rejected
+        # in-line even with override=True; these are the shapes it accepts)
+        I("ov_anon", None, ["ot", "struct UsesOt", "ot *"], opts="multi",
+          segs=[("typedef struct { int a; } ot; struct UsesOt { ot first; char c; };", None),
+                ("typedef struct { long a; long b; } ot;", "override")], cls=["override", "typedef", "anonymous", "struct"]),
+        I("ov_constvar", None, globs=["g_cint"], opts="multi",
+          segs=[("extern const int g_cint;", None), ("extern int g_cint;", "override")],
+          cls=["override", "global", "constant_and_variable_same_name"]),
+        I("ov_opq", None, ["struct OS", "struct OS *", "os_t"], opts="multi",
+          segs=[("struct OS; typedef struct OS os_t;", None), ("struct OS { long a; long b; };", "override")],
+          tagged={"os_t": "struct OS"}, cls=["override", "struct", "opaque", "tagged_typedef"]),
+        I("ov_fn", None, funcs=["f_void"], opts="multi",
+          segs=[("void f_void(void);", None), ("int f_void(int);", "override")], cls=["override", "function"]),
+        I("ov_glob", None, globs=["g_uchar"], opts="multi",
+          segs=[("extern unsigned char g_uchar;", None), ("extern signed char g_uchar;", "override")],
+          cls=["override", "global"]),
+        # ---- gap 7: a second included FFI (opaque struct completed by the includer, unnamed struct behind a typedef) ----
+        I("inc2", None, ["inc_po", "inc_pa", "inc_an", "struct incO *", "enum incE2", "inc_an[2]"],
+          consts=["JE0", "JE1", "INC_K2"], opts="include", base=1, cls=["include", "include_second_base"]),
+        I("inc2_user", "struct incO { int z; inc_an by_value; }; struct IU2 { inc_po p; inc_pa a; inc_an v; "
+                       "struct incO o; enum incE2 e; };", ["struct incO", "struct IU2", "inc_po"], needs=["inc2"],
+          cls=["include", "include_second_base", "struct", "completes_included_opaque"]),
+        I("inc_redecl", "typedef unsigned char inc_u8; struct incS; struct IR { inc_u8 r; struct incS *q; };",
+          ["inc_u8", "struct incS", "struct IR"], needs=["inc"], cls=["include", "redeclares_included"]),
     ]
+
+
+# gap 1: "wide" cdefs -- every table of the generated module gets more than 127 / 128 / 255 / 256 (thorough: 65 535)
+# entries, so that the second and third byte of the 4-byte opcodes / indexes are used and the bisection of the sorted
+# tables takes more than one step
+WIDE_QUICK = (127, 128, 129, 255, 256, 257)
+WIDE_THOROUGH = (34000,)   # 34000 array typedefs = 68000 slots of _types: type indexes beyond 65 535 (third byte)
+WIDE_SYMS = 300          # wf_000..wf_299 / wg_000..wg_299 exist in the test library
+
+
+def _wide_builder(n):
+    def build():
+        out = []
+        types = []
+        consts = []
+        funcs = []
+        globs = []
+        full = n <= 1000
+        # The in-line parser re-declares every known typedef name in front of EVERY string it parses, so one in-line
+        # typeof() costs O(N) (2 s for N = 20000).  For the big N only three typedef names are looked up in-line; for
+        # all the others the in-line type is read from the field of 'struct wmany'
+        # declared with that typedef (Item.via_fields) and compared with the module's typeof(name).
+        probe = set(range(n)) if full else set((0, n // 2, n - 1))
+        for i in range(n):
+            out.append("typedef int wa%d[%d];" % (i, i + 1))
+            if i in probe:
+                types.append("wa%d" % i)
+        if full:
+            for i in range(n):
+                out.append("enum we%d { wv%d = %d };" % (i, i, i))
+                out.append("struct ws%d { wa%d f; enum we%d e; unsigned int b:%d; };" % (i, i, i, 1 + i % 32))
+                types.append("enum we%d" % i)
+                types.append("struct ws%d" % i)
+                consts.append("wv%d" % i)
+            for i in range(min(n, WIDE_SYMS)):
+                out.append("int wf_%03d(struct ws%d *); extern struct ws%d *wg_%03d;" % (i, i, i, i))
+                funcs.append("wf_%03d" % i)
+                globs.append("wg_%03d" % i)
+        out.append("struct wmany { %s };" % " ".join("wa%d m%d;" % (i, i) for i in range(n)))
+        types.append("struct wmany")
+        return "\n".join(out), tuple(types), tuple(consts), tuple(funcs), tuple(globs)
+    return build
+
+
+def _wide_items():
+    out = []
+    for n in WIDE_QUICK + WIDE_THOROUGH:
+        it = Item("wide%d" % n, None, lazy=_wide_builder(n), ext=True, cls=["wide", "wide_%d" % n])
+        if n > 1000:
+            it.via_fields = ("struct wmany", n)
+        out.append(it)
+    return out
 
 
 BASE_CDEF = ("typedef struct { int x; short y; } inc_t; struct incS { short a; inc_t t; int bf:5; }; "
              "enum incE { IE0, IE1 = 9 }; typedef unsigned char inc_u8;\n#define INC_K 7\n")
+BASE2_CDEF = ("struct incO; typedef struct incO *inc_po; typedef struct { int q; } *inc_pa; "
+              "typedef struct { long w; char c; } inc_an; enum incE2 { JE0 = -1, JE1 };\n#define INC_K2 -8\n")
+BASES = (BASE_CDEF, BASE2_CDEF)
+SPLIT = "@split"        # pseudo key at the head of a case: every item (segment) is its own cdef() call
 
 # declarations emit_python_code() is known to refuse: only run as singletons and in pairs
 REFUSED = [
@@ -177,8 +362,9 @@ REFUSED = [
 ]
 
 ITEMS = _items()
-BYKEY = {it.key: it for it in ITEMS + REFUSED}
-assert len(BYKEY) == len(ITEMS) + len(REFUSED)
+WIDE = _wide_items()
+BYKEY = {it.key: it for it in ITEMS + REFUSED + WIDE}
+assert len(BYKEY) == len(ITEMS) + len(REFUSED) + len(WIDE)
 REFUSAL_TYPES = ("OverflowError", "NotImplementedError", "VerificationError")
 
 _TESTLIB = None          # path, set by the driver before the pool forks
@@ -205,50 +391,101 @@ def _worker_state():
         d = build.scratch()
         if d not in sys.path:
             sys.path.insert(0, d)
-        name = "c11base_%d" % os.getpid()
-        base_gen = cffi.FFI()
-        base_gen.cdef(BASE_CDEF)
-        base_gen.set_source(name, None)
-        with contextlib.redirect_stdout(io.StringIO()):
-            base_gen.emit_python_code(os.path.join(d, name + ".py"))
-        _W["base_name"] = name
+        names = []
+        for i, text in enumerate(BASES):
+            name = "c11base%d_%d" % (i, os.getpid())
+            base_gen = cffi.FFI()
+            base_gen.cdef(text)
+            base_gen.set_source(name, None)
+            with contextlib.redirect_stdout(io.StringIO()):
+                base_gen.emit_python_code(os.path.join(d, name + ".py"))
+            names.append(name)
+        _W["base_names"] = names
         _W["cdll"] = ctypes.CDLL(_TESTLIB)
     return _W
 
 
-def apply_items(ffi, seq, base):
-    """Feed the item sequence to an FFI: consecutive items with the same options form one cdef() call."""
-    i = 0
-    while i < len(seq):
-        it = seq[i]
-        if it.opts == "include":
-            ffi.include(base)
-            i += 1
-            continue
-        j = i
-        texts = []
-        while j < len(seq) and seq[j].opts == it.opts:
-            texts.append(seq[j].text)
-            j += 1
-        kw = {}
-        if it.opts == "packed":
-            kw["packed"] = True
-        elif it.opts == "pack4":
-            kw["pack"] = 4
-        ffi.cdef("\n".join(texts), **kw)
-        i = j
+class Bases(object):
+    """The FFIs a case includes, made on demand and fresh for every case (in-line model objects carry completion
+    state; a base shared between successive including FFIs is a history -- that belongs to C34 -- not a cdef)."""
+
+    def __init__(self, names=None):
+        self.names = names          # set_source() names for the generator side, None for the in-line side
+        self.made = {}
+
+    def get(self, i):
+        if i not in self.made:
+            import cffi
+            f = cffi.FFI()
+            f.cdef(BASES[i])
+            if self.names is not None:
+                f.set_source(self.names[i], None)
+            self.made[i] = f
+        return self.made[i]
 
 
-def cdef_text(seq):
-    out = []
+def parse_case(keys):
+    """A case is a tuple of item keys, optionally headed by SPLIT.  -> (split, [Item])"""
+    keys = list(keys)
+    split = bool(keys) and keys[0] == SPLIT
+    if split:
+        keys = keys[1:]
+    seq = [BYKEY[k] for k in keys]
+    for it in seq:
+        it._force()
+    return split, seq
+
+
+def plan_calls(seq, split=False):
+    """The calls an item sequence stands for: ("include", base index) | ("cdef", text, kwargs).  Consecutive
+    segments with the same options form ONE cdef() call, unless `split` (then every segment is its own call);
+    override=True segments are never merged."""
+    calls = []
+    last_opts = "none-yet"
     for it in seq:
         if it.opts == "include":
-            out.append("/* ffi.include(base): %s */" % BASE_CDEF.strip())
-        elif it.opts:
-            out.append("/* cdef(..., %s) */ %s" % (it.opts, it.text))
+            calls.append(("include", it.base))
+            last_opts = "none-yet"
+            continue
+        for text, opts in it.segments():
+            if not split and opts == last_opts and opts != "override":
+                calls[-1] = ("cdef", calls[-1][1] + "\n" + text, calls[-1][2])
+                continue
+            kw = {}
+            if opts == "packed":
+                kw["packed"] = True
+            elif opts == "pack4":
+                kw["pack"] = 4
+            elif opts == "override":
+                kw["override"] = True
+            calls.append(("cdef", text, kw))
+            last_opts = opts
+    return calls
+
+
+def apply_items(ffi, seq, bases, split=False):
+    """Feed the item sequence to an FFI."""
+    for c in plan_calls(seq, split):
+        if c[0] == "include":
+            ffi.include(bases.get(c[1]))
         else:
-            out.append(it.text)
+            ffi.cdef(c[1], **c[2])
+
+
+def cdef_text(seq, split=False):
+    out = []
+    for c in plan_calls(seq, split):
+        if c[0] == "include":
+            out.append("ffi.include(base%d)   /* base%d.cdef: %s */" % (c[1], c[1], BASES[c[1]].strip()))
+        else:
+            text = c[1] if len(c[1]) < 1500 else c[1][:700] + "\n/* ... %d characters ... */\n" % (len(c[1]) - 1400) + c[1][-700:]
+            out.append("ffi.cdef(%s)   /* one call */\n%s" % (", ".join("%s=%r" % kv for kv in sorted(c[2].items())), text))
     return "\n".join(out)
+
+
+def case_text(keys):
+    split, seq = parse_case(keys)
+    return cdef_text(seq, split)
 
 
 def _err(e):
@@ -412,7 +649,25 @@ def classify_sig(seq, what, site, a, b, extra=None):
     elif what in ("constant_value", "constant_missing"):
         if any(extra in it.beyond64 for it in seq):
             cause = "beyond_64_bits"
+    # ---- root causes found by the audit-round families (recognised from the INPUT, as above) --------------------
+    allcls = set()
+    for it in seq:
+        allcls.update(it.cls)
+    if cause == "other" and what in LAYOUT_KINDS and "include_second_base" in allcls and \
+            allcls & {"unnamed_aggregate", "anonymous_member"}:
+        # the included FFI and the including cdef both have an unnamed aggregate: both parsers call theirs '$1', the model
+        # types compare equal by name, and the recompiler gives both ONE entry in its type table
+        cause = "dollar_name_shared_with_included_ffi"
+    if cause == "other" and "constant_and_variable_same_name" in allcls and site in ("global", "dir") and \
+            "g_cint" in str(extra):
+        # 'extern const int g;' then cdef('extern int g;', override=True) keeps BOTH declarations; the module's sorted
+        # table of globals then has two entries called g and the bisection finds one or the other
+        cause = "constant_and_variable_same_name"
     return {"kind": what, "cause": cause, "site": site}
+
+
+LAYOUT_KINDS = ("field_names", "size_align", "field_offset", "field_bits", "kind", "type_name", "opaque",
+                "module_fields_error", "array_length", "enumerators", "enum_base")
 
 
 def run_case(keys):
@@ -421,7 +676,7 @@ def run_case(keys):
     import warnings
     warnings.simplefilter("ignore")
     W = _worker_state()
-    seq = [BYKEY[k] for k in keys]
+    split, seq = parse_case(keys)
     out = []
     classes = []
 
@@ -430,21 +685,14 @@ def run_case(keys):
                     {"what": what, "where": site, "inline": a, "module": b, "extra": extra}))
 
     # ---- in-line ---------------------------------------------------------------------
-    # the included FFIs are fresh for every case: in-line model objects carry completion state, a base shared
-    # between successive including FFIs is a history (that belongs to C34), not a cdef
-    base_in = cffi.FFI()
-    base_in.cdef(BASE_CDEF)
-    base_gen = cffi.FFI()
-    base_gen.cdef(BASE_CDEF)
-    base_gen.set_source(W["base_name"], None)
     fin = cffi.FFI()
     try:
-        apply_items(fin, seq, base_in)
+        apply_items(fin, seq, Bases(), split)
     except Exception as e:
         return ("rejected_inline", [type(e).__name__], [])
     # ---- generator -----------------------------------------------------------------------
     fgen = cffi.FFI()
-    apply_items(fgen, seq, base_gen)
+    apply_items(fgen, seq, Bases(W["base_names"]), split)
     name = "c11m_%d_%d" % (os.getpid(), next(W["n"]))
     fgen.set_source(name, None)
     path = os.path.join(build.scratch(), name + ".py")
@@ -489,6 +737,7 @@ def run_case(keys):
     # ---- types ---------------------------------------------------------------------------
     cmpr = Comparer(fin, fo)
     nprobe = 0
+    completes_included = any("completes_included_opaque" in it.cls for it in seq)
     for it in seq:
         for t in it.types:
             try:
@@ -500,12 +749,43 @@ def run_case(keys):
             try:
                 b = fo.typeof(t)
             except Exception as e:
+                if isinstance(e, NotImplementedError) and completes_included:
+                    # 'struct incO' is opaque in the ffi.include(), but no longer in the ffi doing the include
+                    # (workaround: ...): the generated module refuses explicitly -- only, it can do so no earlier than
+                    # when the type is first used.  Same rule as for the refusals of emit_python_code(): excluded, counted.
+                    nprobe -= 1
+                    classes.append("probe_excluded.module_refuses_completed_included_opaque(NotImplementedError)")
+                    continue
                 bad("module_typeof_error", it.cls[0], "ok", _err(e), extra=t)
                 continue
             n0 = len(cmpr.bad)
             cmpr.top(a, b, t)
             for what, p, x, y in cmpr.bad[n0:]:
                 bad(what, it.cls[0], x, y, extra=p)
+
+    # ---- typedefs of the big wide cdef: in-line reference = the type of the field declared with the typedef --------
+    for it in seq:
+        if it.via_fields:
+            sname, n = it.via_fields
+            try:
+                fa = dict(fin.typeof(sname).fields)
+            except Exception as e:
+                raise InfraError("in-line fields of %s: %s" % (sname, _err(e)))
+            for i in range(n):
+                a = fa["m%d" % i].type
+                nprobe += 1
+                try:
+                    b = fo.typeof("wa%d" % i)
+                except Exception as e:
+                    bad("module_typeof_error", it.cls[0], "ok", _err(e), extra="wa%d" % i)
+                    continue
+                if a is not b:
+                    n0 = len(cmpr.bad)
+                    cmpr.top(a, b, "wa%d" % i)
+                    for what, p, x, y in cmpr.bad[n0:]:
+                        bad(what, it.cls[0], x, y, extra=p)
+                    if len(out) > 50:
+                        break
 
     # ---- list_types ----------------------------------------------------------------------
     la = fin.list_types()
@@ -641,7 +921,7 @@ def run_case(keys):
                 bad("global_value", "global", va, vb, extra=g)
             if ab != want:
                 bad("global_address", "global", aa, ab, extra=g)
-            if g == "g_int":
+            if g == "g_int" and type(ra) is int and type(rb) is int:
                 # a store through one lib is seen through the other
                 old = li.g_int
                 try:
@@ -653,6 +933,50 @@ def run_case(keys):
                         bad("global_value", "global", li.g_int, -7, extra="after module store")
                 finally:
                     li.g_int = old
+    # ---- the SET of exposed names (audit gap 4) ----------------------------------------------
+    # Every name either lib lists in dir() and that was not probed above: it must be an attribute of both libs or of
+    # neither ("exposes the same functions and global variables").  Nothing is judged where the in-line lib has the
+    # name but cannot produce it (NotImplementedError for non-integer constants, ...): the reference has no answer.
+    probed = set()
+    for it in seq:
+        probed.update(it.consts)
+        probed.update(it.funcs)
+        probed.update(it.globs)
+    try:
+        da = set(dir(li))
+    except Exception as e:
+        raise InfraError("dir() of the in-line lib failed: %s" % _err(e))
+    try:
+        db = set(dir(lo))
+    except Exception as e:
+        bad("module_dir_error", "dir", "ok", _err(e))
+        db = set()
+    classes.append("dir_compared")
+    if da == db:
+        classes.append("dir_equal")
+    for n in sorted((da | db) - probed):
+        if n.startswith("__"):
+            continue
+        try:
+            xa = getattr(li, n)
+            ea = None
+        except AttributeError as e:
+            xa, ea = None, e
+        except Exception:
+            classes.append("probe_excluded.inline_listed_name_raises")
+            continue
+        try:
+            xb = getattr(lo, n)
+            eb = None
+        except Exception as e:
+            xb, eb = None, e
+        nprobe += 1
+        if ea is not None and eb is None:
+            bad("name_exposed_only_by_module", "dir", _err(ea), repr(xb)[:80], extra=n)
+        elif ea is None and eb is not None:
+            bad("name_exposed_only_by_inline", "dir", repr(xa)[:80], _err(eb), extra=n)
+        elif ea is None and type(xa) is int and (type(xb) is not int or xa != xb):
+            bad("constant_value", "dir", xa, [xb, xb], extra=n)
     classes.append("probes=%d" % nprobe)
     return ("compared", classes, out)
 
@@ -670,36 +994,66 @@ def work(block):
 def complete(keys):
     """The chosen items in the chosen order, each preceded by the items it needs if they are not there yet."""
     out = []
-    for k in keys:
+
+    def add(k):
         for n in BYKEY[k].needs:
             if n not in out:
-                out.append(n)
+                add(n)
         if k not in out:
             out.append(k)
+    for k in keys:
+        add(k)
     return tuple(out)
 
 
 def enumerate_space(ctx):
-    """Distinct completed sequences, simplest first."""
+    """Distinct completed sequences; the few expensive ones (wide cdefs) first.
+
+    old  = the alphabet before the audit round, ext = the items added by it, core = the core items of both.
+      quick:    wide cdefs (6 sizes) alone | all 1- and 2-selections of old | every ext item alone and paired with
+                every core item in both orders | refused x everything | SPLIT: all 1- and 2-selections of core
+      thorough: + the 34000-typedef cdef | all 2-selections of old + ext | all 3-selections of core
+                | SPLIT: all 1- and 2-selections of old + ext
+    """
+    old = [it.key for it in ITEMS if not it.ext]
+    ext = [it.key for it in ITEMS if it.ext]
     full = [it.key for it in ITEMS]
     core = [it.key for it in ITEMS if it.core]
     seen = set()
 
-    def emit(sel):
+    def emit(sel, split=False):
         seq = complete(sel)
+        if split:
+            if len(plan_calls([BYKEY[k] for k in seq], True)) == len(plan_calls([BYKEY[k] for k in seq], False)):
+                return []               # splitting changes nothing: the same calls as the merged case
+            seq = (SPLIT,) + seq
         if seq not in seen:
             seen.add(seq)
             return [seq]
         return []
+    for n in WIDE_QUICK + (() if ctx.quick else WIDE_THOROUGH):
+        for x in emit(("wide%d" % n,)):
+            yield x
     for k in (1, 2):
-        for sel in itertools.permutations(full, k):
+        for sel in itertools.permutations(old, k):
             for x in emit(sel):
                 yield x
+    for e in ext:
+        for x in emit((e,)):
+            yield x
+        for y in (core if ctx.quick else full):
+            if y != e:
+                for x in emit((e, y)) + emit((y, e)):
+                    yield x
     for r in REFUSED:
         for x in emit((r.key,)):
             yield x
         for y in full:
             for x in emit((r.key, y)) + emit((y, r.key)):
+                yield x
+    for k in (1, 2):
+        for sel in itertools.permutations(core if ctx.quick else full, k):
+            for x in emit(sel, split=True):
                 yield x
     if not ctx.quick:
         for sel in itertools.permutations(core, 3):
@@ -712,11 +1066,18 @@ def run(ctx):
     _TESTLIB = build_testlib()
     cases = list(enumerate_space(ctx))
     ncore = len([it for it in ITEMS if it.core])
-    ctx.log("alphabet: %d items (%d core) + %d refused; %d cdefs" % (len(ITEMS), ncore, len(REFUSED), len(cases)))
-    blocks = list(pool.chunks(cases, 120))
+    next_ = len([it for it in ITEMS if it.ext])
+    nwide = len(WIDE_QUICK) + (0 if ctx.quick else len(WIDE_THOROUGH))
+    ctx.log("alphabet: %d items (%d of the audit round, %d core) + %d refused + %d wide; %d cdefs" % (
+        len(ITEMS), next_, ncore, len(REFUSED), nwide, len(cases)))
+    # the wide cdefs are the slow cases: one block each, handed out first
+    heavy = [c for c in cases if any(BYKEY[k] in WIDE for k in c if k != SPLIT)]
+    hset = set(heavy)
+    light = [c for c in cases if c not in hset]
+    blocks = [[c] for c in sorted(heavy, key=lambda c: -max(int(k[4:]) for k in c if k.startswith("wide")))]
+    blocks += list(pool.chunks(light, 120))
     evaluated = 0
     nontrivial = 0
-    status = {}
     for block, r in pool.pmap(work, [[b] for b in blocks]):
         if isinstance(r, pool.WorkerError):
             raise InfraError("worker failed: %s" % r.tb)
@@ -725,6 +1086,13 @@ def run(ctx):
             continue
         for keys, st, classes, out in r:
             evaluated += 1
+            items = [BYKEY[k] for k in keys if k != SPLIT]
+            split = keys[0] == SPLIT
+            fam = ("wide" if any(it in WIDE for it in items) else
+                   "split" if split else
+                   "ext" if any(it.ext for it in items) else "old")
+            ctx.count("family.%s" % fam)
+            ctx.count("family.%s.status.%s" % (fam, st))
             ctx.count("status." + st)
             if st in ("rejected_inline", "emit_refused", "inline_incomplete", "emit_failed", "import_failed"):
                 for c in classes:
@@ -735,32 +1103,48 @@ def run(ctx):
                     if c.startswith("probes="):
                         nprobes = int(c[7:])
                         ctx.count("probes_compared", nprobes)
+                        ctx.count("family.%s.probes_compared" % fam, nprobes)
                     else:
                         ctx.count(c)
                 cl = set()
-                for k in keys:
-                    cl.update(BYKEY[k].cls)
+                for it in items:
+                    cl.update(it.cls)
                 for c in cl:
                     ctx.count("class." + c)
-                if nprobes and (len(keys) > 1 or cl - {"typedef", "constant"}):  # keys: the completed sequence
+                ncalls = len(plan_calls(items, split))
+                ctx.count("calls_per_case.%s" % (ncalls if ncalls < 4 else "4+"))
+                if nprobes and (len(items) > 1 or cl - {"typedef", "constant"}):  # items: the completed sequence
                     nontrivial += 1
-                ctx.sample({"items": list(keys), "cdef": cdef_text([BYKEY[k] for k in keys])})
+                if fam != "wide":
+                    ctx.sample({"items": list(keys), "cdef": case_text(keys)})
             for sig, info in out:
-                ctx.violation(sig, {"items": list(keys), "cdef": cdef_text([BYKEY[k] for k in keys]), "info": info})
+                ctx.violation(sig, {"items": list(keys), "cdef": case_text(keys), "info": info})
     cov = {
         "evaluations": evaluated,
         "distinct_nontrivial": nontrivial,
-        "rule": "every ordered selection of 1 or 2 distinct items of the %d-item alphabet%s, plus the %d declarations "
-                "emit_python_code() refuses alone and paired with every item in both orders; an item that uses a name "
+        "rule": "every ordered selection of 1 or 2 distinct items of the %d-item alphabet of the first round; every one "
+                "of the %d items added in the audit round (unnamed '$N' aggregates reached through a field / pointer "
+                "typedef / parameter / global, typedef of a function TYPE and more function shapes, more kinds of global "
+                "and const-qualified globals, empty / enumerator-less / var-sized aggregates, cdef(override=True), a "
+                "second included FFI) alone and paired in both orders with every %s item; %s"
+                "the %d declarations emit_python_code() refuses alone and paired with every item in both orders; the same "
+                "selections of 1 or 2 %s items given with ONE cdef() CALL PER ITEM instead of merged calls (run only "
+                "when that changes the calls); %d 'wide' cdefs with N typedef'd arrays, N enums, N structs, a struct of N "
+                "fields and min(N,%d) functions and globals for N in %s%s; an item that uses a name "
                 "declared by another item is preceded by that item when the selection does not already contain it "
                 "earlier (identical completed sequences are run once); consecutive items with the "
-                "same cdef options form one cdef() call; a case is non-trivial when the cdef was accepted in-line, the "
+                "same cdef options form one cdef() call (except in the split cases); in every case dir() of both libs "
+                "is taken and every listed name not probed otherwise must be an attribute of both; a case is "
+                "non-trivial when the cdef was accepted in-line, the "
                 "module was emitted and imported, at least one probe was compared, and it has two or more items or "
                 "declares something other than a plain typedef/constant (cases are distinct sequences)" % (
-                    len(ITEMS), "" if ctx.quick else " and every ordered selection of 3 distinct items of its %d-item "
-                                                     "core" % ncore, len(REFUSED)),
+                    len(ITEMS) - next_, next_, "core" if ctx.quick else "other",
+                    "" if ctx.quick else "every ordered selection of 3 distinct items of the %d-item core; " % ncore,
+                    len(REFUSED), "core" if ctx.quick else "alphabet", nwide, WIDE_SYMS, list(WIDE_QUICK),
+                    "" if ctx.quick else " and one of %d typedef'd arrays + a struct of as many fields" % WIDE_THOROUGH[0]),
         "exhaustive": True,
-        "bound": {"max_items": 2 if ctx.quick else 3, "alphabet": len(ITEMS), "core": ncore},
+        "bound": {"max_items": 2 if ctx.quick else 3, "alphabet": len(ITEMS), "core": ncore, "audit_round_items": next_,
+                  "wide": list(WIDE_QUICK) + ([] if ctx.quick else list(WIDE_THOROUGH))},
     }
     return ctx.finish(cov, [
         "the in-line FFI is the reference; nothing is compared where it raises itself",
@@ -771,8 +1155,27 @@ def run(ctx):
 def replay(detail):
     global _TESTLIB
     _TESTLIB = build_testlib()
+    if "block" in detail:
+        # a worker died in this block of cases: run every case in a forked child and report the ones that die
+        died = 0
+        for keys in detail["block"]:
+            sys.stdout.flush()
+            pid = os.fork()
+            if pid == 0:
+                try:
+                    run_case(tuple(keys))
+                finally:
+                    os._exit(0)
+            _, st = os.waitpid(pid, 0)
+            if st != 0:
+                died += 1
+                print("CRASH (wait status %d) in case %r" % (st, list(keys)))
+                print(case_text(tuple(keys))[:3000])
+        if not died:
+            print("no case of the block kills the process now")
+        return 1 if died else 0
     keys = tuple(detail["items"])
-    print(cdef_text([BYKEY[k] for k in keys]))
+    print(case_text(keys))
     st, classes, out = run_case(keys)
     print("status:", st, classes)
     for sig, info in out:
